@@ -64,6 +64,12 @@ func EvalExpr(e gen.Expr, env Env) (any, error) {
 		}
 		rv, err := EvalExpr(t.R, env)
 		if err != nil {
+			if lv == nil && strings.Contains(err.Error(), "unary minus on NULL") {
+				// "a binary arithmetic operator with a NULL operand yields NULL":
+				// the left operand is NULL, and the right one is undefined only
+				// because it negates a NULL itself
+				return nil, nil
+			}
 			return nil, err
 		}
 		if lv == nil || rv == nil {
